@@ -15,7 +15,7 @@ REQUIRED_PROBES = {"quick": [], "thorough": []}
 
 def budget(tier):
     if tier == "quick":
-        return dict(runs=30000, wall=75, chunk=200)
+        return dict(runs=45000, wall=75, chunk=200)
     return dict(runs=1200000, wall=840, chunk=800)
 
 
